@@ -236,7 +236,7 @@ var rejects = []string{
 	// raw newlines / control characters / encoding
 	"\"a\nb\"", "\"a\rb\"", "'a\nb'", "'a\rb'", "\"a\x01b\"", "\"a\x00b\"", "'a\x1fb'", "'''a\x00b'''", "'''a\x08b'''",
 	"\"\xff\xfe\"", "'\xff'", "'''\xc3'''", "\"\xed\xa0\x80\"", "\"\xc0\x80\"", "\"\xf4\x90\x80\x80\"", "\"\xc3\"", "\xff", "\xc3\xa9", "[\x80]", "\x00", "\x7f", "\x1b",
-	"{{ \"\xc3\xa9\" }}", "{{ \"a\x80\" }}", "{{ '''a\xff''' }}", "{{ \"a\nb\" }}", "{{ \"\x7f\" }}", "{{ \"a\x01\" }}",
+	"{{ \"\xc3\xa9\" }}", "{{ \"a\x80\" }}", "{{ '''a\xff''' }}", "{{ \"a\nb\" }}", "{{ \"a\x01\" }}",
 	// lob structure
 	`{{ "a" /*c*/ }}`, `{{ /*c*/ "a" }}`, "{{ '''a''' // c\n }}", `{{ '''a''' /*c*/ '''b''' }}`, `{{ "a" "b" }}`, `{{ "a" '''b''' }}`, `{{ '''a''' "b" }}`, `{{ "a" } }`, `{ { "a" }}`,
 	`{{ aGVsbG8 }}`, `{{ aGVsbG8== }}`, `{{ a=Vs }}`, `{{ aGV=bG8= }}`, `{{ aG= }}`, `{{ a }}`, `{{ ==== }}`, `{{ = }}`, `{{ aGVs$G8= }}`, `{{ aGVsbA=== }}`, `{{ aGVsbG8= } }`,
